@@ -51,7 +51,7 @@ fn dns_roundtrip<const QN: usize, const RN: usize, const RD: usize>() {
 /// DNS R1: names of 2 and 3 bytes, 4-byte rdata (an A record)
 #[kani::proof]
 #[kani::unwind(40)]
-fn c08_dns_roundtrip_names_2_3_rdata_4() { dns_roundtrip::<2, 3, 4>() }
+fn x08_dns_roundtrip_names_2_3_rdata_4() { dns_roundtrip::<2, 3, 4>() }
 
 /// DNS R1: empty names and empty rdata
 #[kani::proof]
@@ -61,13 +61,13 @@ fn c08_dns_roundtrip_empty_names() { dns_roundtrip::<0, 0, 0>() }
 /// DNS R1: name of 3 bytes / 1 byte, 1-byte rdata
 #[kani::proof]
 #[kani::unwind(40)]
-fn x08_dns_roundtrip_names_3_1_rdata_1() { dns_roundtrip::<3, 1, 1>() }
+fn c08_dns_roundtrip_names_3_1_rdata_1() { dns_roundtrip::<3, 1, 1>() }
 
 /// DNS R2: every accepted byte string of 28 bytes re-encodes (DnsHeader/Question/ResourceRecord::build) to the prefix the
 /// decoder consumed.
 #[kani::proof]
 #[kani::unwind(32)]
-fn c08_dns_reencode_reproduces_accepted_bytes() {
+fn x08_dns_reencode_reproduces_accepted_bytes() {
     let b: [u8; 29] = kani::any();
     if let Ok(m) = DnsMessage::from_bytes(b.iter().cloned()) {
         let consumed = 12 + m.question.qname.len() + 1 + 4 + m.answer.name.len() + 1 + 10 + m.answer.rdata.len();
